@@ -172,6 +172,9 @@ if HAS_ZSTD:
         def decompress(self, data: bytes) -> bytes:
             if not data:
                 return b""
+            if self._obj.eof:
+                # The previous frame ended exactly where the previous data ended.
+                self._obj = zstd.ZstdDecompressor().decompressobj()
             data_parts = [self._obj.decompress(data)]
             while self._obj.eof and self._obj.unused_data:
                 unused_data = self._obj.unused_data
